@@ -100,3 +100,33 @@ Theorem C04_index_resume_returns_all_after_start_key :
     ipages lm c t q (S (List.length (ies q ix))) L esk =
     Some (map (eitem t) (filter (ematched ev) (filter (aft2b (q_forward q) (esk_pos t ix esk)) (ies q ix)))).
 Proof. exact index_resume_complete. Qed.
+
+(* On reachable states: after ANY history (any interpreter, either SDK flavour) whose updates keep the key attributes (UK)
+   and whose table updates do not re-type attributes (EK, EX), pagination of any table of any client is complete - the
+   invariants the theorems above assume are established by the histories themselves *)
+From Minidyn Require Import Model.Client Proofs.ClientInv Proofs.ClientIndexInv Proofs.PaginationReach.
+
+Theorem C04_pagination_complete_in_every_reachable_state_base :
+  forall lm lu sdk ops cn tn c t,
+    run_env EK (UK lu) lm lu sdk [] ops ->
+    lookup cn (fst (run lm lu sdk [] ops)) = Some c -> lookup tn (c_tables c) = Some t ->
+    forall q ev,
+    q_index q = None -> q_cond q = None ->
+    (forall k, In k (t_sorted t) -> match_key lm (ctx_of c) t q (get_item t k) = Ok (ev k)) ->
+    forall L, 0 < L ->
+    exists items f, search_data lm (ctx_of c) t (with_page q 0 []) = Ok (items, [], f) /\
+                    pages lm (ctx_of c) t q (S (List.length (t_sorted t))) L [] = Some items.
+Proof. exact pagination_reachable_base. Qed.
+
+Theorem C04_pagination_complete_in_every_reachable_state_index :
+  forall lm lu sdk ops cn tn c t,
+    run_env EK (UK lu) lm lu sdk [] ops ->
+    lookup cn (fst (run lm lu sdk [] ops)) = Some c -> lookup tn (c_tables c) = Some t ->
+    run_env EX UAny lm lu sdk [] ops ->
+    forall q ev n ix,
+    q_index q = Some n -> lookup n (t_indexes t) = Some ix -> q_cond q = None ->
+    (forall e, In e (ies q ix) -> match_key lm (ctx_of c) t q (get_item t (snd e)) = Ok (ev (snd e))) ->
+    forall L, 0 < L ->
+    exists items f, search_data lm (ctx_of c) t (with_page q 0 []) = Ok (items, [], f) /\
+                    ipages lm (ctx_of c) t q (S (ix_count ix)) L [] = Some items.
+Proof. exact pagination_reachable_index. Qed.
